@@ -573,7 +573,7 @@ pub fn run(ctx: &Ctx) -> i32 {
         tier,
         seed: ctx.seed,
         level: "exploration",
-        rule: "per scenario 60-120 seeded messages (requests and responses; routes empty/long/non-ASCII/NUL; 0-256 headers incl. empty key/value; bodies 0 B-2 MB; all 8 status codes) through the real encoders/decoders over in-memory streams read whole, 1 byte at a time and in random chunks; oracle = independent hand-written parser/encoder of the established layout (exact consumption, field equality, byte equality for <=1 header), pinned golden byte vectors, round-trip equality with empty extensions and an extension marker that must not appear on the wire, every strict prefix rejected (all prefixes of messages <= 600 B, a seeded sample otherwise), wrong preamble/version/reserved byte/unknown status rejected, mutated and random bytes never panic and are accepted only if the reference parser yields the same value; distinct by (kind, header bucket, body bucket, status)".into(),
+        rule: "per scenario 60-120 seeded messages (requests and responses; routes empty/long/non-ASCII/NUL; 0-256 headers incl. empty key/value; bodies 0 B-2 MB; all 8 status codes) through the real encoders/decoders over in-memory streams read whole, 1 byte at a time and in random chunks; oracle = independent hand-written parser/encoder of the established layout (exact consumption, field equality, byte equality for <=1 header), pinned golden byte vectors, round-trip equality with empty extensions and an extension marker that must not appear on the wire, every strict prefix rejected (all prefixes of messages <= 600 B, a seeded sample otherwise), wrong preamble/version/reserved byte/unknown status rejected, mutated and random bytes never panic and are accepted only if the reference parser yields the same value; distinct by (kind, header bucket, body bucket, status) Body sizes also sit at and around powers of two up to 4 MiB and between 4 and 8 MiB; routes include hostile text (1-4 byte UTF-8 across byte offsets); prefixes of large messages are cut at every structural boundary in addition to the sample.".into(),
         assumptions: vec!["only Version::V1 exists; bincode's free-function configuration (fixint, trailing bytes allowed in the header frame) is mirrored by the reference parser".into()],
         summary,
         extra: Default::default(),
